@@ -211,7 +211,13 @@ func Probes(n int) []Probe {
 
 // Endless builds programs that never end by themselves.
 func Endless(r *prng.R) (string, []core.Event) {
-	switch r.Intn(8) {
+	switch r.Intn(11) {
+	case 8:
+		return "x := 0\nwhile true\n    x = x + 1\n    sleep 0\nend\n", nil
+	case 9:
+		return "spent := 0.02\nframe := 0.016\nwhile true\n    sleep frame-spent\n    spent = spent + 0\nend\n", nil
+	case 10:
+		return "on key k:string\n    print k\n    sleep (-3)\n    while true\n        k = k + \"\"\n    end\nend\n", []core.Event{{Name: "key", Str: []string{"a"}}}
 	case 6:
 		return "print \"waiting\"\nwhile true\n    // busy wait\nend\n", nil
 	case 7:
